@@ -19,6 +19,7 @@ LEVEL = 'exploration'
 SHARDS = {'quick': 4, 'thorough': 16}
 TIMEOUT = {'quick': 300, 'thorough': 3000}
 N_DESC = {'quick': 1500, 'thorough': 120000}
+N_BIG = {'quick': 8, 'thorough': 200}           # scale regime: groups of 256-700 agents; 300-900 systems with hooks (70-300 KB files)
 MOD = 'vlib.fixtures.decodables'
 ALT = 'vlib.fixtures.decodables_alt'
 RULE = ('cases: seeded descriptions with 0-4 systems (arbitrary priorities, frequency/start/end given or defaulted, arbitrary ids), 0-3 agent '
@@ -35,7 +36,7 @@ ASSUMPTIONS = ['fixtures record what they are handed; the model-level hooks are 
                'most recently created model', 'descriptions are well-formed (unique system ids)']
 FLOORS = {'quick': {'decodes': 2000, 'events_compared': 15000, 'json_decodes': 800, 'dict_decodes': 800, 'repeat_decodes': 300,
                     'groups_of_size_zero': 200, 'descriptions_without_systems': 100, 'descriptions_without_agents': 100,
-                    'hooks_run': 5000, 'agents_created': 3000, 'complete_models': 300, 'two_module_descriptions': 200, 'nested_decodes_during_decode': 200, 'late_bound_system_classes': 200,
+                    'hooks_run': 5000, 'agents_created': 3000, 'complete_models': 300, 'spatial_model_decodes': 300, 'big_agent_groups': 2, 'big_descriptions': 2, 'two_module_descriptions': 200, 'nested_decodes_during_decode': 200, 'late_bound_system_classes': 200,
                     'environment_replaced_by_hook': 100, 'reach:Decode.Decoder.decode': 2000, 'reach:Decode.JsonDecoder.open_file': 800},
           'thorough': {'decodes': 150000}}
 EXHAUSTIVE = {}
@@ -50,6 +51,8 @@ def gen_description(rng, label):
     d = {'model': {'name': 'RModel', 'module': mod(), 'params': {'label': label, 'seed': rng.randint(0, 99)}}, 'systems': [], 'agents': []}
     if rng.random() < 0.25:
         d['model']['params']['complete'] = True
+    if rng.random() < 0.3:
+        d['model']['params']['world'] = 'grid'
 
     def h(kind, name=None, module=None):
         hk = {'func': 'hook', 'module': module or mod(), 'params': {'kind': kind, 'name': name}}
@@ -197,6 +200,12 @@ def decode_and_check(ctx, decoder, arg, d, how, inner=None):
     got_agents = [a.id for a in model.environment]
     check(got_agents == want_agents, f'environment holds {got_agents}, expected {want_agents}', **detail)
     check(all(a.model is model for a in model.environment), 'an agent does not belong to the decoded model', **detail)
+    replaced = any(a.get(k, {}).get('params', {}).get('replace_env') for a in d['agents'] for k in ('pre_agent_init', 'post_agent_init'))
+    if d['model']['params'].get('world') == 'grid' and not replaced:
+        import ECAgent.Environments as envs
+        ctx.count('spatial_model_decodes')
+        lost = [a.id for a in model.environment if envs.PositionComponent not in a.components]
+        check(not lost, f'{len(lost)} agents were not added through the environment\'s own add_agent (no position in a grid world)', first=lost[:5], **detail)
     return model
 
 
@@ -263,14 +272,64 @@ def case_desc(ctx, case):
                     'events': [(k, n, i) for (k, n, i, _, _, _, _) in expected_events(d)][:14]})
 
 
+
+def case_big(ctx, case):
+    """Scale regime: agent groups of 256-700 agents (in plain and grid-world models), descriptions with hundreds of systems and hooks (JSON
+    files of 70-300 KB) decoded two and three times from the same unchanged file."""
+    import ECAgent.Decode as decode
+    from vlib.fixtures import decodables, decodables_alt  # noqa
+    rng = ctx.rng('big', case['i'])
+
+    def h(kind, name):
+        return {'func': 'hook', 'module': MOD, 'params': {'kind': kind, 'name': name}}
+
+    d = {'model': {'name': 'RModel', 'module': MOD, 'params': {'label': f'big{case["i"]}'}}, 'systems': [], 'agents': []}
+    if case['i'] % 2 == 0:
+        d['model']['params']['world'] = rng.choice(['grid', 'plain'])
+        for g, nn in (('herd', rng.choice([256, 300, 700])), ('few', 3), ('flock', rng.choice([255, 257, 512]))):
+            a = {'name': 'RAgent', 'module': MOD, 'number': nn, 'params': {'group': g}}
+            if rng.random() < 0.6:
+                a['post_agent_init'] = h('post_agents', g)
+            d['agents'].append(a)
+        d['systems'].append({'name': 'RSystem', 'module': MOD, 'params': {'id': 'only'}, 'post_system_init': h('post_sys', 'only')})
+        ctx.count('big_agent_groups')
+    else:
+        for j in range(rng.choice([300, 450, 900])):
+            sdesc = {'name': 'RSystem', 'module': MOD, 'params': {'id': f'system_number_{j}', 'priority': rng.randint(-9, 9), 'frequency': 1 + j % 5}}
+            sdesc['pre_system_init'] = h('pre_sys', f'system_number_{j}')
+            if j % 2:
+                sdesc['post_system_init'] = h('post_sys', f'system_number_{j}')
+            d['systems'].append(sdesc)
+        d['agents'].append({'name': 'RAgent', 'module': MOD, 'number': 4, 'params': {'group': 'g'}, 'pre_agent_init': h('pre_agents', 'g')})
+        ctx.count('big_descriptions')
+    tmp = tempfile.mkdtemp(prefix='c18b-')
+    try:
+        pth = os.path.join(tmp, 'big.json')
+        with open(pth, 'w') as f:
+            json.dump(d, f)
+        ctx.count('big_json_bytes', os.path.getsize(pth))
+        dec = decode.JsonDecoder()
+        models = []
+        for k in range(3):
+            models.append(decode_and_check(ctx, dec if k < 2 else decode.JsonDecoder(), pth, d, f'JsonDecoder, decode #{k + 1} of a large file'))
+            ctx.count('json_decodes')
+        check(len({id(m_) for m_ in models}) == 3, 'repeated decodes returned the same model')
+    finally:
+        shutil.rmtree(tmp, ignore_errors=True)
+    ctx.distinct(('big', case['i']))
+
+
 def run_case(ctx, case):
-    case_desc(ctx, case)
+    (case_big if case.get('kind') == 'big' else case_desc)(ctx, case)
 
 
 def run(ctx):
     for i in range(N_DESC[ctx.tier]):
         if ctx.mine(i) and not ctx.full():
             ctx.run_case({'kind': 'desc', 'i': i}, run_case)
+    for i in range(N_BIG[ctx.tier]):
+        if ctx.mine(i) and not ctx.full():
+            ctx.run_case({'kind': 'big', 'i': i}, run_case)
 
 
 def replay(ctx, case):
